@@ -21,12 +21,12 @@ ASSUMPTIONS = [
 def run(check):
     M = Models(check)
     check.run_rule('C09.R1', lambda c: rm.rule_tables(
-        c, M.merge(), 'C09.R1', ('exact',), 'effect equals the exact effect of every compatible row (tables B2-B4)',
+        c, M.merge(), 'C09.R1', ('exact', 'starname'), 'effect equals the exact effect of every compatible row (tables B2-B4)',
         witness="merge(s('a=1'), s('')) must be () and must not raise"))
-    check.run_rule('C09.R1b', lambda c: rm.rule_kwo_and_stars(c, M.merge(), 'C09.R1', ('exact',)))
+    check.run_rule('C09.R1b', lambda c: rm.rule_kwo_and_stars(c, M.merge(), 'C09.R1', ('exact', 'starname')))
     check.run_rule('C09.R2', lambda c: rule_round_trip(c, M.proto(), 'C09.R2'))
     check.run_rule('C09.R3', lambda c: rm.rule_tables(
         c, M.merge(), 'C09.R3', ('leftwins',), 'name and kind come from the left operand',
         witness="merge(s('a, /'), s('b, /')) must be (a, /)"))
-    check.run_rule('C09.R3b', lambda c: rm.concile_table(c, c.repo, {'leftwins': 'C09.R3', 'exact': 'C09.R1'}))
+    check.run_rule('C09.R3b', lambda c: rm.concile_table(c, c.repo, {'leftwins': 'C09.R3', 'default': 'C09.R1', 'annotation': 'C09.R1'}))
     check.run_rule('C09.R4', lambda c: rm.rule_kind_closure(c, M.merge(), 'C09.R4'))
